@@ -57,3 +57,47 @@ package render
 //@ requires args: w != nil && ctx != nil
 //@ assigns *
 //@ ensures onlyw: forall(x, "Val", x != w && x != wsink(w) && !newbuf(x) ==> wtotal(x) == old(wtotal(x)))
+
+// ---- trimWriter (C13, C20, C05) ------------------------------------------------------
+// Abstract view: total(tw) = wtotal(tw.w) ++ tw.buf  (what the downstream writer has
+// accepted plus what is still buffered). A trimWriter never wraps another trimWriter.
+
+//@ typeinv render.trimWriter: self.w != nil && !is(self.w, *render.trimWriter)
+
+//@ func (*render.trimWriter).TrimRight
+//@ props C13 C01
+//@ panics nothing
+//@ assigns F$render.trimWriter$trim
+//@ ensures armed: tw.trim
+//@ ensures nothingElse: tw.buf == old(tw.buf) && tw.w == old(tw.w) && wunchanged()
+
+//@ func (*render.trimWriter).Flush
+//@ props C13 C20 C05 C01
+//@ panics nothing
+//@ assigns F$render.trimWriter$buf, writer
+//@ ensures lossless: result1 == nil ==> wtotal(tw.w) == cat(old(wtotal(tw.w)), old(tw.buf))
+//@ ensures prefix: exists(k, 0, len(old(tw.buf)) + 1, wtotal(tw.w) == cat(old(wtotal(tw.w)), substr(old(tw.buf), 0, k)))
+//@ ensures emptied: tw.buf == ""
+//@ ensures count: result1 == nil ==> result0 == len(old(tw.buf))
+//@ ensures others: forall(x, "Val", x != tw.w ==> wtotal(x) == old(wtotal(x)))
+
+//@ func (*render.trimWriter).Write
+//@ props C13 C20 C05 C01
+//@ panics nothing
+//@ assigns F$render.trimWriter$buf, F$render.trimWriter$trim, writer
+//@ ensures view: err == nil ==> cat(wtotal(tw.w), tw.buf) == cat(old(cat(wtotal(tw.w), tw.buf)), ite(old(tw.trim), ltrim(bstr(b)), bstr(b)))
+//@ ensures stripws: err == nil ==> stripws(cat(wtotal(tw.w), tw.buf)) == cat(stripws(old(cat(wtotal(tw.w), tw.buf))), stripws(bstr(b)))
+//@ ensures disarmed: !tw.trim
+//@ ensures prefix: exists(k, 0, len(old(tw.buf)) + 1, wtotal(tw.w) == cat(old(wtotal(tw.w)), substr(old(tw.buf), 0, k)))
+//@ ensures others: forall(x, "Val", x != tw.w ==> wtotal(x) == old(wtotal(x)))
+
+//@ func (*render.trimWriter).TrimLeft
+//@ props C13 C20 C01
+//@ panics nothing
+//@ assigns F$render.trimWriter$buf, writer, alloc S$Int
+//@ ensures trimmed: result == nil ==> wtotal(tw.w) == cat(old(wtotal(tw.w)), rtrim(old(tw.buf)))
+//@ ensures stripws: result == nil ==> stripws(cat(wtotal(tw.w), tw.buf)) == stripws(old(cat(wtotal(tw.w), tw.buf)))
+//@ ensures prefix: exists(k, 0, len(old(tw.buf)) + 1, wtotal(tw.w) == cat(old(wtotal(tw.w)), substr(old(tw.buf), 0, k)))
+//@ ensures emptied: tw.buf == ""
+//@ ensures flag: tw.trim == old(tw.trim)
+//@ ensures others: forall(x, "Val", x != tw.w ==> wtotal(x) == old(wtotal(x)))
